@@ -55,3 +55,43 @@ META = {
 }
 
 NOT_YET = {}
+
+HOOK_COMMITS[:] = ["5ed767e", "c515dcc"]
+
+ENGINES.extend([
+    {"name": "vq-c05", "path": "harness/vq-c05", "serves_properties": ["C05", "C08", "C14"],
+     "kind_free_text": "component monitor: real codecs (varint, frames, packet headers, packet numbers, transport parameters) against the reference parser vq-wire on random / grammar / mutated inputs; natively and under Miri"},
+    {"name": "vq-interop", "path": "harness/vq-interop", "serves_properties": ["C07"],
+     "kind_free_text": "s2n-quic <-> quiche/BoringSSL inside the deterministic simulator with quiche's clock interposed to virtual time; byte-exact oracle on both sides"},
+])
+
+META.update({
+    "C04": {"engine": "vq-sim", "design_ref": "DESIGN.md section 4, C04",
+            "technique": "runtime monitoring: attacker-mode packet interceptor (an honest peer whose cleartext is rewritten) + rejection / error-code / credit-bound oracles on the victim's taps",
+            "text": "19 kinds of transport-rule violations and 2 at-the-limit controls are injected as cleartext frames by an otherwise honest peer, in both roles; the victim must close at once with the RFC-prescribed (or a generic) transport error on the event, the application error and the CONNECTION_CLOSE frame, hand none of the offending bytes to the application (C01 oracle) and never advertise more credit than consumed + window (checked on every MAX_* frame of every run). Whether a frame really is a violation is judged from the victim's own advertised limits.",
+            "note": _SIM_NOTE},
+    "C05": {"engine": "vq-c05", "design_ref": "DESIGN.md section 4, C05",
+            "technique": "runtime monitoring: differential decoding against an independent RFC 9000 reference parser + round-trip / totality oracles; Miri on a reduced set",
+            "text": "Millions of inputs per run (random, grammar-generated, boundary-biased, mutated, concatenated) go through the real decoders and through vq-wire; accept/reject, every field and the consumed length must agree, encoders must announce their exact size and emit shortest-form varints, decoders must never panic or stop making progress. Held on the inputs tried, not for all byte strings.",
+            "note": "Trusted base: vq-wire (written from RFC 9000 16-19, RFC 9221) and the don't-care classification in harness/vq-c05/README.md. Coverage guidance is not used."},
+    "C07": {"engine": "vq-interop", "design_ref": "DESIGN.md section 4, C07",
+            "technique": "runtime monitoring: interoperability runs against quiche with a byte-exact two-sided oracle under fault injection",
+            "text": "Both roles against quiche 0.29.3 over lossy / reordering networks and the configurable range of windows, stream limits and datagram sizes; handshake, stream bytes in both directions and clean stream ends are checked on both sides, any transport error is a violation. One recorded known finding (receive buffers sized by max_mtu while max_udp_payload_size is not advertised).",
+            "note": "Trusted base: quiche/BoringSSL as the independent implementation, the clock_gettime interposition (self-tested), the simulator. One peer implementation, QUIC v1."},
+    "C10": {"engine": "vq-sim", "design_ref": "DESIGN.md section 4, C10",
+            "technique": "runtime monitoring: boundary recording of every congestion-controller call (proxy around the real CUBIC/BBR) with gating / floor / monotonicity oracles; component histories against a shadow model",
+            "text": "Every call live connections make on the real controllers is recorded with window and bytes-in-flight before and after: sends must start below the window unless the packet is a PTO probe or a required fast retransmission, the window never drops below 2 (CUBIC) / 4 (BBR) datagrams, CUBIC never grows on loss or ECN. The component engine adds arbitrary legal histories with persistent congestion, MTU changes and discards.",
+            "note": _SIM_NOTE},
+    "C13": {"engine": "vq-sim", "design_ref": "DESIGN.md section 4, C13",
+            "technique": "runtime monitoring: connection-id ledger over TX/RX taps joined with wire destination ids on the network tap",
+            "text": "Every NEW_CONNECTION_ID / RETIRE_CONNECTION_ID frame is checked against a per-connection ledger (consecutive sequence numbers, distinct ids and reset tokens, retire_prior_to, active limit incl. the RFC's retire_prior_to allowance, retiring only issued ids, never on the id being retired) and every delivered genuine datagram's destination id against the connection that then processes it, with id expiry, handshake-id rotation, rebinding and targeted frame loss.",
+            "note": _SIM_NOTE},
+    "C14": {"engine": "vq-sim", "design_ref": "DESIGN.md section 4, C14",
+            "technique": "runtime monitoring: RFC 18.2 table oracle on the real decoders + handshakes with rewritten parameter blocks (TLS-level wrapper) observed on events, wire and limit monitor",
+            "text": "Decoders are compared with a table transcribed from RFC 9000 7.4/18.2 on seeded blocks (accept / reject / don't care, decoded values, defaults); live handshakes with 27 kinds of rewritten blocks check that invalid ones fail with TRANSPORT_PARAMETER_ERROR on event and wire and that valid ones are accepted and applied (sender held to the declared limits by the C03 oracle). Two recorded known findings (non-minimal ack_delay_exponent, short retry_source_connection_id).",
+            "note": _SIM_NOTE},
+    "C15": {"engine": "vq-sim", "design_ref": "DESIGN.md section 4, C15",
+            "technique": "runtime monitoring: live key updates forced by hook H1 with generation-consistency, decryptability and data-integrity oracles; component key-set model",
+            "text": "Live connections rotate their 1-RTT keys every 500-1550 packets under loss, duplication and reordering; the two ends' generations must advance by one and never differ by more than one, genuine intact datagrams must decrypt, data must stay intact, no crypto close. The component engine drives two KeySets with tiny limits through a hostile channel and checks the limits and generation order after every step.",
+            "note": _SIM_NOTE + " Production AEAD limits are never reached; header-protected key-phase bits are not visible on the wire, generations are taken from key_update events."},
+})
